@@ -1,1 +1,6 @@
 import Ypv.Props.C01
+#print axioms Ypv.C01.required_eq_select
+#print axioms Ypv.C01.getRequired_eq_select
+#print axioms Ypv.C01.exists_iff_select_nonempty
+#print axioms Ypv.C01.optional_eq_required_of_exists
+#print axioms Ypv.C01.select_sorted_nodup
